@@ -139,6 +139,10 @@ fn typed_pull(ty: &str, req: bool, params: &mut Parameters) -> Result<bool> {
         "i64" => pull!(i64), "u64" => pull!(u64), "isize" => pull!(isize), "usize" => pull!(usize),
         "f32" => pull!(f32), "f64" => pull!(f64), "bool" => pull!(bool), "bytes" => pull!(&[u8]), "str" => pull!(&str),
         "arb" => pull!(Arbitrary), "chr" => pull!(Character), "expr" => pull!(Expression),
+        "volt" => pull!(scpi::units::ElectricPotential), "freq" => pull!(scpi::units::Frequency), "time" => pull!(scpi::units::Time),
+        "amplv" => pull!(scpi::parser::suffix::Amplitude<scpi::units::ElectricPotential>),
+        "dbw" => pull!(scpi::parser::suffix::Db<f32, scpi::units::Power>),
+        "nvi32" => pull!(scpi_contrib::scpi1999::NumericValue<i32>), "nvf32" => pull!(scpi_contrib::scpi1999::NumericValue<f32>),
         "nlist" => pull!(NumericList, |l: NumericList| -> Result<()> { for e in l { e?; } Ok(()) }),
         "clist" => pull!(ChannelList, |l: ChannelList| -> Result<()> {
             for e in l {
